@@ -11,14 +11,14 @@ Open Scope N_scope.
 Local Notation length := List.length (only parsing).
 
 (* ---- what may follow a token ---- *)
-(* after a complete simple expression: end of input, white space, `)`, or a symbolic logical operator *)
+(* after a complete simple expression: end of input, white space, `)`, `,`, or a symbolic logical operator *)
 Definition atom_follow (r : bytes) : Prop :=
-  match r with [] => True | b :: _ => is_space b = true \/ b = 41 \/ b = 38 \/ b = 124 \/ b = 94 end.
+  match r with [] => True | b :: _ => is_space b = true \/ b = 41 \/ b = 38 \/ b = 124 \/ b = 94 \/ b = 44 end.
 (* after a field name inside a comparison: additionally the first byte of a symbolic comparison operator *)
 Definition name_follow (r : bytes) : Prop :=
   match r with
   | [] => True
-  | b :: _ => is_space b = true \/ b = 41 \/ b = 38 \/ b = 124 \/ b = 94 \/ b = 61 \/ b = 33 \/ b = 62 \/ b = 60 \/ b = 126
+  | b :: _ => is_space b = true \/ b = 41 \/ b = 38 \/ b = 124 \/ b = 94 \/ b = 44 \/ b = 61 \/ b = 33 \/ b = 62 \/ b = 60 \/ b = 126
   end.
 
 Lemma atom_name_follow r : atom_follow r -> name_follow r.
@@ -666,13 +666,30 @@ Lemma quant_tok qsp q x : In (qsp, q) [(bs "any", QAny); (bs "all", QAll)] -> to
 Proof. intros [Hq|[Hq|[]]]; injection Hq as <- <-; cbn; repeat split; discriminate. Qed.
 
 (* ---- the mutual induction ---- *)
-Scheme GSimple_mind := Minimality for GSimple Sort Prop
+Scheme GLhs_mind := Minimality for GLhs Sort Prop
+  with GArgs_mind := Minimality for GArgs Sort Prop
+  with GArg_mind := Minimality for GArg Sort Prop
+  with GSimple_mind := Minimality for GSimple Sort Prop
   with GTail_mind := Minimality for GTail Sort Prop
   with GLogical_mind := Minimality for GLogical Sort Prop.
-Combined Scheme grammar_ind from GSimple_mind, GTail_mind, GLogical_mind.
+Combined Scheme grammar_ind from GLhs_mind, GArgs_mind, GArg_mind, GSimple_mind, GTail_mind, GLogical_mind.
 
 Definition log_end (r : bytes) : Prop := atom_follow r /\ lex_combining_op r = (None, r).
+(* after an argument: white space, then `,` or `)` *)
+Definition sep_follow (r : bytes) : Prop := exists ws c x, layout_ws ws /\ r = ws ++ c :: x /\ (c = 44 \/ c = 41).
+Definition arg_start (t : bytes) : Prop := match t with b :: _ => b <> 41 /\ b <> 44 | [] => False end.
 
+Definition PLhs (d : N) (t : bytes) (ie : iexpr) (ty0 : ty) : Prop :=
+  tok_start t /\ tok_end t /\ ty_iexpr sch ie = Some ty0 /\
+  (exists name more, t = name ++ more /\ ident_text name /\ kw_free name /\
+     forall r, name_follow r -> ident_stop (more ++ r) /\ second_ok (more ++ r)) /\
+  forall r f, name_follow r -> okf (lex_index_expr sch st f d (t ++ r)) ie r.
+Definition PArgs (d : N) (def : fn_def) (acc : list arg) (txt : bytes) (all : list arg) : Prop :=
+  tok_end txt /\ (acc <> [] -> forall r, sep_follow (txt ++ r)) /\
+  forall r f, okf (lex_call_args sch st f d (skip_space (txt ++ r)) def acc) all r.
+Definition PArg (d : N) (atxt : bytes) (a : arg) : Prop :=
+  tok_start atxt /\ tok_end atxt /\ arg_start atxt /\
+  forall r f, sep_follow r -> okf (lex_arg sch st f d (atxt ++ r)) a r.
 Definition PS (K : bool) (d : N) (t : bytes) (a : lexpr) : Prop :=
   tok_start t /\ tok_end t /\ not_combining a /\ ty_lexpr sch a = Some (kty K) /\
   forall r f, atom_follow r -> okf (lex_simple sch st f d (t ++ r)) a r.
@@ -682,6 +699,54 @@ Definition PT (K : bool) (d : N) (c : @chain lexpr) (tc : bytes) : Prop :=
 Definition PL (K : bool) (d : N) (t : bytes) (e : lexpr) : Prop :=
   tok_start t /\ tok_end t /\ ty_lexpr sch e = Some (kty K) /\
   forall r f, log_end r -> okf (lex_logical sch st f d (t ++ r)) e r.
+
+Lemma sep_atom r : sep_follow r -> atom_follow r /\ name_follow r.
+Proof.
+  intros (ws & c & x & Hw & -> & Hc). destruct ws as [|c0 ws].
+  - cbn. destruct Hc as [->| ->]; split; tauto.
+  - apply and_comm. apply (layout_first_follow (c0 :: ws)); [assumption|discriminate].
+Qed.
+Lemma sep_log_end r : sep_follow r -> log_end r.
+Proof.
+  intros H. split; [exact (proj1 (sep_atom r H))|]. destruct H as (ws & c & x & Hw & -> & Hc).
+  apply combining_op_none. rewrite skip_space_ws by assumption. destruct Hc as [->| ->]; reflexivity.
+Qed.
+Lemma sep_no_cmp r : sep_follow r -> lex_alts comparison_ops (skip_space r) = None.
+Proof. intros (ws & c & x & Hw & -> & Hc). rewrite skip_space_ws by assumption. destruct Hc as [->| ->]; reflexivity. Qed.
+
+(* one turn of the argument loop when the input does not begin with `)` *)
+Lemma call_args_step f d input def acc :
+  match input with b :: _ => b <> 41 | [] => False end ->
+  lex_call_args sch st (S f) d input def acc =
+  lbind (if Nat.eqb (List.length acc) 0 then LOk tt input else expect [44] input) (fun _ input1 =>
+    let input2 := skip_space input1 in
+    match lex_arg sch st f d input2 with
+    | LOk a rest =>
+        let sp := span_len input2 rest in
+        if Nat.ltb 0 (arg_map_each_count a) && negb (Nat.eqb (List.length acc) 0)
+        then LErr EInvalidMapEachAccess input2 sp
+        else if negb (fn_variadic_same def)
+                && Nat.leb (List.length (fn_params def) + List.length (fn_opt_params def)) (List.length acc)
+        then LErr EInvalidArgumentsCount input2 (List.length input2)
+        else
+          match ty_arg sch a with
+          | None => LPanic
+          | Some t =>
+              match check_param sch def acc a t with
+              | PcOk => lex_call_args sch st f d (skip_space rest) def (acc ++ [a])
+              | PcKind => LErr EInvalidArgumentKind input2 sp
+              | PcType => LErr EInvalidArgumentType input2 sp
+              | PcUnreachable => LPanic
+              end
+          end
+    | LErr k a n => LErr k a n
+    | LPanic => LPanic
+    | LFuel => LFuel
+    end).
+Proof.
+  destruct input as [|b tl]; [intros []|]. intros Hb. cbn [lex_call_args].
+  destruct b as [|p]; [reflexivity|]. do 6 (try (destruct p as [p|p|]); try reflexivity). congruence.
+Qed.
 
 Lemma sep_first o s x : sep_text o s -> atom_follow (s ++ x).
 Proof.
@@ -724,51 +789,177 @@ Proof.
   destruct (idx_text_end _ _ _ _ Hi) as [->|H]; [now rewrite app_nil_r|now apply tok_end_app].
 Qed.
 
+Lemma lhs_field_facts d name i t0 itxt idx t : names_field sch name i t0 -> idx_text t0 itxt idx t ->
+  PLhs d (name ++ itxt) (IField i idx) t.
+Proof.
+  intros Hnf Hi. pose proof Hnf as (Hn & Hkw & Hg & Hty). destruct (lhs_ends name itxt t0 idx t Hn Hi) as [Hs He].
+  split; [exact Hs|]. split; [exact He|]. split; [exact (field_ty_iexpr i t0 itxt idx t Hty Hi)|]. split.
+  - exists name, itxt. split; [reflexivity|]. split; [exact Hn|]. split; [exact Hkw|].
+    intros r Hr. split; [exact (idx_then_stop _ _ _ _ r Hi Hr)|exact (idx_second _ _ _ _ r Hi Hr)].
+  - intros r f Hr. rewrite <- app_assoc. exact (index_expr_field f d name i t0 itxt idx t r Hnf Hi Hr).
+Qed.
+
+(* a bare left-hand side / a comparison, from the facts about the left-hand side *)
+Lemma simple_istrue K d ltxt ie t : PLhs d ltxt ie t -> istrue_class (iexpr_idx ie) t = Some K ->
+  PS K d ltxt (EComparison ie CIsTrue).
+Proof.
+  intros (Hs & He & Hlt & (name & more & -> & Hn & Hkw & Hmore) & Hp) Hk.
+  split; [exact Hs|]. split; [exact He|]. split; [exact I|]. split.
+  { cbn [ty_lexpr]. unfold ty_cmp_of. rewrite Hlt. unfold istrue_class in Hk.
+    destruct (Nat.ltb 0 (map_each_count (iexpr_idx ie))); destruct t as [| | | |e|e]; try discriminate Hk;
+      try (destruct e; try discriminate Hk); injection Hk as <-; reflexivity. }
+  intros r f Hr. destruct f as [|f]; [now left|].
+  destruct (Hmore r (atom_name_follow r Hr)) as [Hst _].
+  pose proof (name_not_special name (more ++ r) Hn Hkw Hst) as (E1 & E2 & E3). rewrite app_assoc in E1, E2, E3.
+  remember ((name ++ more) ++ r) as inp eqn:Ei. cbn [lex_simple]. rewrite E1, E2, E3. subst inp.
+  eapply okf_bind; [apply Hp; now apply atom_name_follow|].
+  destruct f as [|f]; [now left|]. right. cbn [lex_with_lhs]. rewrite Hlt. unfold istrue_class in Hk.
+  destruct t as [| | | |e|e]; try discriminate Hk; try reflexivity;
+    destruct e; try discriminate Hk; destruct (Nat.ltb 0 (map_each_count (iexpr_idx ie))); try discriminate Hk; reflexivity.
+Qed.
+
+Lemma simple_cmp K d ltxt ie t ws1 sp sym ws2 lit c : PLhs d ltxt ie t -> K = Nat.ltb 0 (map_each_count (iexpr_idx ie)) ->
+  layout_ws ws1 -> layout_ws ws2 -> (sym = true \/ ws1 <> []) -> cmp_text_s sch t sp sym lit c -> tok_start lit -> tok_end lit ->
+  PS K d (ltxt ++ ws1 ++ sp ++ ws2 ++ lit) (EComparison ie c).
+Proof.
+  intros (Hs & He & Hlt & (name & more & -> & Hn & Hkw & Hmore) & Hp) HK H1 H2 Hsym Hc Hls Hle.
+  destruct (cmp_not_istrue _ _ _ _ _ Hc) as [Hnc Hp3].
+  split; [now apply tok_start_app|]. split; [rewrite !app_assoc; now apply tok_end_app|].
+  split; [exact I|]. split.
+  { cbn [ty_lexpr]. unfold ty_cmp_of. subst K. destruct (Nat.ltb 0 (map_each_count (iexpr_idx ie))); [reflexivity|].
+    destruct c; try reflexivity. congruence. }
+  intros r f Hr. destruct f as [|f]; [now left|].
+  assert (Hnf' : name_follow (ws1 ++ sp ++ ws2 ++ lit ++ r)).
+  { destruct ws1 as [|c0 ws1].
+    - destruct Hsym as [->|Hs']; [|congruence]. destruct (cmp_sym_first _ _ _ _ Hc) as (b & x & -> & Hb).
+      cbn. tauto.
+    - apply (layout_first_follow (c0 :: ws1)); [assumption|discriminate]. }
+  replace (((name ++ more) ++ ws1 ++ sp ++ ws2 ++ lit) ++ r) with ((name ++ more) ++ (ws1 ++ sp ++ ws2 ++ lit ++ r))
+    by (now rewrite <- !app_assoc).
+  destruct (Hmore _ Hnf') as [Hst _].
+  pose proof (name_not_special name _ Hn Hkw Hst) as (E1 & E2 & E3). rewrite app_assoc in E1, E2, E3.
+  remember ((name ++ more) ++ ws1 ++ sp ++ ws2 ++ lit ++ r) as inp eqn:Ei. cbn [lex_simple]. rewrite E1, E2, E3. subst inp.
+  eapply okf_bind; [apply Hp; assumption|].
+  destruct f as [|f]; [now left|]. right.
+  apply (cmp_parses t sp sym lit c Hc f d ie ws1 ws2 r Hlt H1 H2 Hls Hr).
+Qed.
+
 Theorem grammar_parses :
+  (forall d t ie ty0, GLhs sch st d t ie ty0 -> PLhs d t ie ty0) /\
+  (forall d def acc txt all, GArgs sch st d def acc txt all -> PArgs d def acc txt all) /\
+  (forall d atxt a, GArg sch st d atxt a -> PArg d atxt a) /\
   (forall K d t a, GSimple sch st K d t a -> PS K d t a) /\
   (forall K d c tc, GTail sch st K d c tc -> PT K d c tc) /\
   (forall K d t e, GLogical sch st K d t e -> PL K d t e).
 Proof.
   apply grammar_ind.
-  - (* bare boolean / boolean-array left-hand side *)
-    intros K d name i t0 itxt idx t Hnf Hi Hk. pose proof Hnf as (Hn & Hkw & Hg & Hty).
-    destruct (lhs_ends name itxt t0 idx t Hn Hi) as [Hs He].
-    pose proof (field_ty_iexpr i t0 itxt idx t Hty Hi) as Hlt.
-    split; [exact Hs|]. split; [exact He|]. split; [exact I|]. split.
-    { cbn [ty_lexpr]. unfold ty_cmp_of. cbn [iexpr_idx]. rewrite Hlt. unfold istrue_class in Hk.
-      destruct (Nat.ltb 0 (map_each_count idx)); destruct t as [| | | |e|e]; try discriminate Hk;
-        try (destruct e; try discriminate Hk); injection Hk as <-; reflexivity. }
+  - (* a field with index accesses *)
+    intros d name i t0 itxt idx t Hnf Hi. exact (lhs_field_facts d name i t0 itxt idx t Hnf Hi).
+  - (* a function call with index accesses *)
+    intros d name i def ws1 atxt all tret itxt idx t Hnf H1 Hd _ (Hae & _ & Hap) Hret Hi.
+    pose proof Hnf as (Hn & Hkw & Hg & Hdef). destruct (ident_text_ends name Hn) as [Hs He].
+    split; [now apply tok_start_app|].
+    split. { destruct (idx_text_end _ _ _ _ Hi) as [->|Hie].
+             - rewrite app_nil_r. change (40 :: atxt) with ([40] ++ atxt). rewrite !app_assoc. now apply tok_end_app.
+             - change (40 :: atxt ++ itxt) with ([40] ++ atxt ++ itxt). rewrite !app_assoc. now apply tok_end_app. }
+    split. { cbn [ty_iexpr]. fold (ty_call sch i (args_of_list all)). rewrite Hret. cbn. exact (idx_ty _ _ _ _ Hi). }
+    split.
+    { exists name, (ws1 ++ 40 :: atxt ++ itxt). split; [reflexivity|]. split; [exact Hn|]. split; [exact Hkw|].
+      intros r _. split.
+      - destruct ws1 as [|c0 ws1]; [cbn; split; [reflexivity|discriminate]|].
+        inversion H1 as [|? ? Hc _]; subst. destruct Hc as [->|[->| ->]]; cbn; split; (reflexivity || discriminate).
+      - destruct ws1 as [|c0 ws1]; [cbn; split; discriminate|].
+        inversion H1 as [|? ? Hc _]; subst. destruct Hc as [->|[->| ->]]; cbn; split; discriminate. }
     intros r f Hr. destruct f as [|f]; [now left|].
-    rewrite <- app_assoc.
-    destruct (name_not_special name _ Hn Hkw (idx_then_stop _ _ _ _ r Hi (atom_name_follow r Hr))) as (E1 & E2 & E3).
-    remember (name ++ itxt ++ r) as inp eqn:Ei. cbn [lex_simple]. rewrite E1, E2, E3. subst inp.
-    eapply okf_bind; [apply (index_expr_field f d name i t0 itxt idx t r Hnf Hi); now apply atom_name_follow|].
-    destruct f as [|f]; [now left|]. right. cbn [lex_with_lhs]. rewrite Hlt. cbn [iexpr_idx]. unfold istrue_class in Hk.
-    destruct t as [| | | |e|e]; try discriminate Hk; try reflexivity;
-      destruct e; try discriminate Hk; destruct (Nat.ltb 0 (map_each_count idx)); try discriminate Hk; reflexivity.
-  - (* comparison *)
+    replace ((name ++ ws1 ++ 40 :: atxt ++ itxt) ++ r) with (name ++ (ws1 ++ 40 :: (atxt ++ itxt ++ r)))
+      by (repeat (cbn [app]; rewrite <- ?app_assoc); reflexivity).
+    assert (Hst : ident_stop (ws1 ++ 40 :: atxt ++ itxt ++ r)).
+    { destruct ws1 as [|c0 ws1]; [cbn; split; [reflexivity|discriminate]|].
+      inversion H1 as [|? ? Hc _]; subst. destruct Hc as [->|[->| ->]]; cbn; split; (reflexivity || discriminate). }
+    cbn [lex_index_expr]. rewrite (ident_name_roundtrip name _ Hn Hst). rewrite Hg.
+    rewrite (increase_ok d _ Hd).
+    destruct f as [|f]; [now left|]. cbn [lex_call]. rewrite Hdef.
+    rewrite skip_space_ws by assumption. cbn [skip_space]. change (is_space 40) with false. cbv iota.
+    unfold expect. cbn [starts_with]. rewrite N.eqb_refl. cbn [lbind].
+    destruct (Hap (itxt ++ r) f) as [E|E]; rewrite E; [now left|]. unfold lmap at 1. cbn [lbind].
+    rewrite Hret. rewrite (lex_indexes_text tret itxt idx t Hi r [] _ (follow_no_bracket r Hr)); [now right|].
+    rewrite app_length. lia.
+  - (* `)` *)
+    intros d def acc ws Hw Har.
+    split; [apply tok_end_last; split; reflexivity|].
+    split. { intros _ r. exists ws, 41, r. rewrite <- app_assoc. auto. }
+    intros r f. destruct f as [|f]; [now left|]. right. rewrite <- app_assoc. rewrite skip_space_ws by assumption.
+    cbn [app skip_space]. change (is_space 41) with false. cbv iota. cbn [lex_call_args].
+    unfold arity_reached in Har. rewrite Har. unfold expect. cbn [starts_with]. rewrite N.eqb_refl. reflexivity.
+  - (* the first argument *)
+    intros d def ws atxt a rest all Hw _ (Hs & He & Hst & Hp) (C1 & C2 & t & Hta & Hck) _ (Hre & Hrf & Hrp).
+    split. { rewrite !app_assoc. now apply tok_end_app. }
+    split; [congruence|].
+    intros r f. destruct f as [|f]; [now left|].
+    replace ((ws ++ atxt ++ rest) ++ r) with (ws ++ atxt ++ (rest ++ r)) by (now rewrite <- !app_assoc).
+    rewrite skip_space_ws by assumption. rewrite (skip_space_tok atxt _ Hs).
+    rewrite call_args_step by (destruct atxt as [|b ?]; [destruct Hst|exact (proj1 Hst)]).
+    cbn [List.length Nat.eqb lbind]. cbv zeta. rewrite (skip_space_tok atxt _ Hs).
+    destruct (Hp (rest ++ r) f (Hrf ltac:(discriminate) r)) as [E|E]; rewrite E; [now left|].
+    cbn [List.length Nat.eqb negb] in C1, C2. rewrite andb_false_r. cbn [List.length] in *. rewrite C2, Hta, Hck. cbn [app]. apply Hrp.
+  - (* a further argument *)
+    intros d def acc ws0 ws atxt a rest all Hne Hw0 Hw _ (Hs & He & Hst & Hp) (C1 & C2 & t & Hta & Hck) _ (Hre & Hrf & Hrp).
+    split. { change (ws0 ++ 44 :: ws ++ atxt ++ rest) with (ws0 ++ [44] ++ ws ++ atxt ++ rest). rewrite !app_assoc. now apply tok_end_app. }
+    split. { intros _ r. exists ws0, 44, ((ws ++ atxt ++ rest) ++ r). rewrite <- app_assoc. auto. }
+    intros r f. destruct f as [|f]; [now left|].
+    replace ((ws0 ++ 44 :: ws ++ atxt ++ rest) ++ r) with (ws0 ++ 44 :: (ws ++ atxt ++ (rest ++ r)))
+      by (repeat (cbn [app]; rewrite <- ?app_assoc); reflexivity).
+    rewrite skip_space_ws by assumption. cbn [skip_space]. change (is_space 44) with false. cbv iota.
+    rewrite call_args_step by discriminate.
+    assert (En : Nat.eqb (List.length acc) 0 = false) by (destruct acc; [congruence|reflexivity]).
+    rewrite En. unfold expect. cbn [starts_with]. rewrite N.eqb_refl. cbn [lbind]. cbv zeta.
+    rewrite skip_space_ws by assumption. rewrite (skip_space_tok atxt _ Hs).
+    assert (Hsf : sep_follow (rest ++ r)) by (apply Hrf; destruct acc; discriminate).
+    destruct (Hp (rest ++ r) f Hsf) as [E|E]; rewrite E; [now left|].
+    rewrite En in C1. rewrite C1, C2, Hta, Hck. apply Hrp.
+  - (* a quoted string as an argument *)
+    intros d l Hl. destruct (print_quoted_ends l) as [Hs He].
+    split; [exact Hs|]. split; [exact He|]. split; [cbn; split; discriminate|].
+    intros r f _. destruct f as [|f]; [now left|]. right. cbn [lex_arg].
+    assert (Hc : exists c2 c3, first_chars (print_quoted l ++ r) = (Some 34, c2, c3)).
+    { unfold print_quoted. cbn [app]. destruct ((print_qbody l ++ [34]) ++ r) as [|b2 s0].
+      - rewrite (first_chars_1 34) by reflexivity. eauto.
+      - destruct (first_chars_2 34 b2 s0 ltac:(reflexivity)) as (c3 & ->). eauto. }
+    destruct Hc as (c2 & c3 & ->). cbn [N.eqb orb Pos.eqb]. rewrite (quoted_roundtrip l r Hl). reflexivity.
+  - (* a left-hand side as an argument *)
+    intros d t ie ty0 _ (Hs & He & Hlt & (name & more & -> & Hn & Hkw & Hmore) & Hp).
+    split; [exact Hs|]. split; [exact He|].
+    split. { destruct (ident_text_first name Hn) as (b & tl & -> & Hb). destruct (ident_byte_not_quote b Hb) as (_ & _ & _ & Hl).
+             cbn. unfold ident_byte in Hb. split; intros ->; discriminate Hb. }
+    intros r f Hr. destruct f as [|f]; [now left|].
+    destruct (sep_atom r Hr) as [_ Hnf]. destruct (Hmore r Hnf) as [Hst Hsec].
+    rewrite <- app_assoc. destruct (name_second name _ Hn Hsec) as (b1 & tl & Etl & Hb1 & Hsec').
+    destruct (name_not_special name _ Hn Hkw Hst) as (_ & U2 & U3).
+    pose proof (Hp r f Hnf) as Hix. rewrite <- app_assoc in Hix.
+    rewrite Etl in *. rewrite (lex_arg_field f d b1 tl Hb1 Hsec' U2 U3).
+    destruct Hix as [E|E]; rewrite E; [now left|]. rewrite (sep_no_cmp r Hr). now right.
+  - (* a logical expression as an argument *)
+    intros K d t le _ (Hs & He & Hty & Hp) Hst.
+    split; [exact Hs|]. split; [exact He|].
+    split. { destruct Hst as (x & [->|[->| ->]]); cbn; split; discriminate. }
+    intros r f Hr. destruct f as [|f]; [now left|].
+    assert (Hst' : exists y, t ++ r = 40 :: y \/ t ++ r = 33 :: y \/ t ++ r = bs "not" ++ y).
+    { destruct Hst as (x & [->|[->| ->]]); exists (x ++ r);
+        [left; reflexivity|right; left; reflexivity|right; right; now rewrite <- app_assoc]. }
+    rewrite (lex_arg_logical f d _ Hst').
+    destruct (Hp r f (sep_log_end r Hr)) as [E|E]; rewrite E; [now left|now right].
+  - (* bare boolean / boolean-array field *)
+    intros K d name i t0 itxt idx t Hnf Hi Hk.
+    exact (simple_istrue K d _ _ t (lhs_field_facts d name i t0 itxt idx t Hnf Hi) Hk).
+  - (* comparison over a field *)
     intros K d name i t0 itxt idx t ws1 sp sym ws2 lit c Hnf Hi HK H1 H2 Hsym Hc Hls Hle.
-    pose proof Hnf as (Hn & Hkw & Hg & Hty).
-    destruct (lhs_ends name itxt t0 idx t Hn Hi) as [Hs He].
-    pose proof (field_ty_iexpr i t0 itxt idx t Hty Hi) as Hlt.
-    destruct (cmp_not_istrue _ _ _ _ _ Hc) as [Hnc Hp3].
-    split; [rewrite app_assoc; now apply tok_start_app|]. split; [rewrite !app_assoc; now apply tok_end_app|].
-    split; [exact I|]. split.
-    { cbn [ty_lexpr]. unfold ty_cmp_of. cbn [iexpr_idx]. subst K. destruct (Nat.ltb 0 (map_each_count idx)); [reflexivity|].
-      destruct c; try reflexivity. congruence. }
-    intros r f Hr. destruct f as [|f]; [now left|].
-    assert (Hnf' : name_follow (ws1 ++ sp ++ ws2 ++ lit ++ r)).
-    { destruct ws1 as [|c0 ws1].
-      - destruct Hsym as [->|Hs']; [|congruence]. destruct (cmp_sym_first _ _ _ _ Hc) as (b & x & -> & Hb).
-        cbn. tauto.
-      - apply (layout_first_follow (c0 :: ws1)); [assumption|discriminate]. }
-    replace ((name ++ itxt ++ ws1 ++ sp ++ ws2 ++ lit) ++ r) with (name ++ itxt ++ (ws1 ++ sp ++ ws2 ++ lit ++ r))
-      by (now rewrite <- !app_assoc).
-    destruct (name_not_special name _ Hn Hkw (idx_then_stop _ _ _ _ _ Hi Hnf')) as (E1 & E2 & E3).
-    remember (name ++ itxt ++ ws1 ++ sp ++ ws2 ++ lit ++ r) as inp eqn:Ei. cbn [lex_simple]. rewrite E1, E2, E3. subst inp.
-    eapply okf_bind; [apply (index_expr_field f d name i t0 itxt idx t _ Hnf Hi); assumption|].
-    destruct f as [|f]; [now left|]. right.
-    apply (cmp_parses t sp sym lit c Hc f d (IField i idx) ws1 ws2 r Hlt H1 H2 Hls Hr).
+    rewrite app_assoc.
+    exact (simple_cmp K d _ _ t ws1 sp sym ws2 lit c (lhs_field_facts d name i t0 itxt idx t Hnf Hi) HK H1 H2 Hsym Hc Hls Hle).
+  - (* bare left-hand side *)
+    intros K d ltxt ie t _ HP Hk. exact (simple_istrue K d ltxt ie t HP Hk).
+  - (* comparison over a left-hand side *)
+    intros K d ltxt ie t ws1 sp sym ws2 lit c _ HP HK H1 H2 Hsym Hc Hls Hle.
+    exact (simple_cmp K d ltxt ie t ws1 sp sym ws2 lit c HP HK H1 H2 Hsym Hc Hls Hle).
   - (* not *)
     intros K d sp ws t a Hsp Hw Hd _ (Hs & He & Hn & Hty & Hp).
     split. { destruct Hsp as [<-|[<-|[]]]; cbn; repeat split; try reflexivity; discriminate. }
@@ -955,7 +1146,7 @@ Theorem filter_grammar_parses sch st text e : GFilter sch st text e -> parse_fil
 Proof.
   intros (ws1 & t & ws2 & -> & H1 & H2 & HG).
   rewrite (parse_filter_outer_layout sch st ws1 ws2 t H1 H2).
-  destruct (proj2 (proj2 (grammar_parses sch st)) false 0 t e HG) as (Hs & He & Hty & Hp).
+  destruct (proj2 (proj2 (proj2 (proj2 (proj2 (grammar_parses sch st))))) false 0 t e HG) as (Hs & He & Hty & Hp).
   pose proof (parse_filter_terminates sch st t) as Hnf.
   unfold parse_filter in *. rewrite (trim_id t Hs He) in *.
   specialize (Hp [] (8 * List.length t + 16)%nat (conj I eq_refl)). rewrite app_nil_r in Hp.
@@ -1067,3 +1258,46 @@ Proof.
   destruct Hp as [Ep|Ep]; rewrite Ep in *; cbn [lbind complete] in *; [congruence|].
   cbn [iexpr_idx]. rewrite He. reflexivity.
 Qed.
+
+(* ---- a worked instance with a function call:  lower( http.host ) == "a"  ---- *)
+Definition gex2_sch : scheme :=
+  {| sc_fields := sc_fields gex_sch;
+     sc_functions := [(bs "lower", {| fn_params := [(KField, TBytes)]; fn_opt_params := []; fn_ret := TBytes;
+                                       fn_impl := fun _ => Some None; fn_variadic_same := false |})];
+     sc_lists := []; sc_nil_ne := true |}.
+Definition gex2_call : iexpr := ICall 0 (args_of_list [AIndex (IField 1 [])]) [].
+Definition gex2_ast : lexpr := EComparison gex2_call (COrd OEq (RBytes [97] FQuoted)).
+Definition gex2_text : bytes := bs "lower( http.host ) == ""a""".
+
+Example gex2_in_grammar : GFilter gex2_sch default_settings gex2_text gex2_ast.
+Proof.
+  assert (I2 : ident_text (bs "http.host")).
+  { apply (IT_dot (bs "http") (bs "host")); [discriminate|repeat constructor|apply IT_seg; [discriminate|repeat constructor]]. }
+  assert (IL : ident_text (bs "lower")) by (apply IT_seg; [discriminate|repeat constructor]).
+  assert (N2 : names_field gex2_sch (bs "http.host") 1 TBytes) by (repeat split; assumption || reflexivity).
+  exists [], gex2_text, []. split; [reflexivity|]. split; [exact ws0|]. split; [exact ws0|].
+  change gex2_text with (bs "lower( http.host ) == ""a""" ++ []).
+  apply (GL gex2_sch default_settings false 0 (((Atom gex2_ast, []), []), []) (bs "lower( http.host ) == ""a""") gex2_ast);
+    [repeat constructor|reflexivity| |apply GT_nil].
+  change (bs "lower( http.host ) == ""a""") with (bs "lower( http.host )" ++ [32] ++ bs "==" ++ [32] ++ bs """a""").
+  apply (GS_cmp_lhs gex2_sch default_settings false 0 (bs "lower( http.host )") gex2_call TBytes [32] (bs "==") true [32]
+           (bs """a""") (COrd OEq (RBytes [97] FQuoted)));
+    [|reflexivity|exact ws1|exact ws1|now left| |cbn; repeat split; discriminate|cbn; repeat split].
+  - change (bs "lower( http.host )") with (bs "lower" ++ [] ++ 40 :: bs " http.host )" ++ []).
+    apply (LH_call gex2_sch default_settings 0 (bs "lower") 0
+             {| fn_params := [(KField, TBytes)]; fn_opt_params := []; fn_ret := TBytes;
+                fn_impl := fun _ => Some None; fn_variadic_same := false |}
+             [] (bs " http.host )") [AIndex (IField 1 [])] TBytes [] [] TBytes);
+      [repeat split; assumption || reflexivity|exact ws0|reflexivity| |reflexivity|constructor].
+    change (bs " http.host )") with ([32] ++ bs "http.host" ++ bs " )").
+    apply (GA_first gex2_sch default_settings (0 + 1) _ [32] (bs "http.host") (AIndex (IField 1 [])) (bs " )") [AIndex (IField 1 [])] ws1).
+    + apply (AR_lhs gex2_sch default_settings (0 + 1) (bs "http.host") (IField 1 []) TBytes).
+      change (bs "http.host") with (bs "http.host" ++ []). apply (LH_field gex2_sch default_settings (0 + 1) (bs "http.host") 1 TBytes [] [] TBytes N2). constructor.
+    + split; [reflexivity|]. split; [reflexivity|]. exists TBytes. split; reflexivity.
+    + change (bs " )") with ([32] ++ [41]). apply (GA_end gex2_sch default_settings (0 + 1) _ [AIndex (IField 1 [])] [32] ws1). reflexivity.
+  - apply CS_plain, CT_ord; [exists (bs "eq"), (bs "=="); split; [cbn; tauto|now right]|reflexivity|].
+    apply (LT_quoted [(SLit, 97)]). repeat constructor; cbn; try lia; auto.
+Qed.
+
+Example gex2_parses : parse_filter gex2_sch default_settings gex2_text = LOk gex2_ast [].
+Proof. exact (filter_grammar_parses _ _ _ _ gex2_in_grammar). Qed.
